@@ -439,7 +439,10 @@ class Gauss:
             xis, etas, weights = Gauss._Triangle(nPg)  # type: ignore [assignment]
 
         elif elemType == ElemType.TRI10:
-            nPg = 6
+            if matrixType == MatrixType.mass:
+                nPg = 12
+            else:
+                nPg = 6
             xis, etas, weights = Gauss._Triangle(nPg)  # type: ignore [assignment]
 
         elif elemType == ElemType.TRI15:
@@ -472,7 +475,10 @@ class Gauss:
             x, y, z, weights = Gauss._Tetrahedron(nPg)  # type: ignore [assignment]
 
         elif elemType == ElemType.TETRA10:
-            nPg = 4
+            if matrixType == MatrixType.mass:
+                nPg = 15
+            else:
+                nPg = 4
             x, y, z, weights = Gauss._Tetrahedron(nPg)  # type: ignore [assignment]
 
         elif elemType == ElemType.HEXA8:
@@ -492,7 +498,10 @@ class Gauss:
             x, y, z, weights = Gauss._Prism(nPg)  # type: ignore [assignment]
 
         elif elemType == ElemType.PRISM15:
-            nPg = 6
+            if matrixType == MatrixType.mass:
+                nPg = 21
+            else:
+                nPg = 6
             x, y, z, weights = Gauss._Prism(nPg)  # type: ignore [assignment]
 
         elif elemType == ElemType.PRISM18:
